@@ -1,7 +1,7 @@
 """Unit UT (C17 / C18): ide::utils::range_excluding_trivia - the range of a node without its trailing trivia."""
 from splice import UnitSpec, C
 
-U = UnitSpec('ut', '/repo/crates/ide/src', None, default_tags='C17')
+U = UnitSpec('ut', '/repo/crates/ide/src', None, default_tags='C17 C18')
 U.root_text = ''
 U.extra_files = [('utils.rs', 'utils')]
 U.prelude_files = ['/verif/contracts/ut/prelude.rs']
